@@ -5,7 +5,9 @@ import json, os
 HERE = os.path.dirname(os.path.dirname(os.path.abspath(__file__)))
 
 TB = ("Lean 4.33 kernel; axioms propext/Classical.choice/Quot.sound only; hand-written Lean model tied to /repo "
-      "by the correspondence suite(s) and generated tables run inside the check; numpy/scipy numerics enter as oracle values")
+      "by the correspondence suite(s), generated tables and (where a Source module exists) definitions translated from the "
+      "Python AST on every run (translator harness/gen_source.py, itself validated against the real methods by "
+      "harness/source_corr.py) inside the check; numpy/scipy numerics enter as oracle values")
 
 CLAIMS = {
  'C08': dict(
@@ -209,17 +211,18 @@ NOT_YET = {}
 # Source ties (third session): kernels translated from the Python AST on every run (harness/gen_source.py ->
 # lean/EpsieModel/Generated/Source.lean) and proved equal to the hand-written model for all arguments.
 SOURCE_TIES = {
- 'C01': 'EpsieProps/C01Source.lean: Chain._acceptance_ratio as translated = Chain.logAR/decision/accepted/ar, a uniform is consumed iff the decision is a draw; EpsieProps/C01SourceExt.lean: the same method translated over IEEE-extended values (EpsieModel/ExtLog.lean: -inf, +inf, nan) agrees with the rational kernel on finite inputs, never raises at beta = 0 whatever the likelihoods (vanishing likelihood accepted with the prior ratio), gives acceptance probability exactly 0 into a region of vanishing likelihood at beta > 0, and the pre-repair formula is nan there (pinned counterexample of repo fix 9ab5e82).',
+ 'C01': 'EpsieProps/C01Source.lean: Chain._acceptance_ratio as translated = Chain.logAR/decision/accepted/ar, a uniform is consumed iff the decision is a draw; EpsieProps/C01SourceStep.lean: Chain.step as translated rejects a zero-prior proposal without consulting the acceptance routine and a rejected step re-records the current position, stats and blob; EpsieProps/C01SourceExt.lean: the same method translated over IEEE-extended values (EpsieModel/ExtLog.lean: -inf, +inf, nan) agrees with the rational kernel on finite inputs, never raises at beta = 0 whatever the likelihoods (vanishing likelihood accepted with the prior ratio), gives acceptance probability exactly 0 into a region of vanishing likelihood at beta > 0, and the pre-repair formula is nan there (pinned counterexample of repo fix 9ab5e82).',
  'C03': 'EpsieProps/C03Source.lean: the hot-to-cold loop of swap_temperatures as translated = Swap.loop/Swap.sweep for every ladder length and uniform stream (loop invariant).',
  'C06': 'EpsieProps/C06Source.lean: Chain.clear and the scratch growth of BaseSampler.run as translated = Chain.clear / Chain.extendFor.',
- 'C08': 'EpsieProps/C08Source.lean: BaseChain.__len__ and the index arithmetic / read set of Chain.__getitem__ as translated = Chain.len / Chain.getitem for every Python integer index.',
- 'C09': 'EpsieProps/C09Source.lean + C09SourceApply.lean: sweep schedule, record and row indices, row count of the views, the row the annealer reads, and the apply block of swap_temperatures (one permutation for positions, stats, blobs, active sets; acceptance untouched; reset condition) as translated = the PTChain model.',
+ 'C08': 'EpsieProps/C08SourceStep.lean: Chain.step as translated writes every scratch array exactly once at index len (blobs iff the chain has blobs) and an accepted step records the proposed point with the stats and blob of that evaluation; EpsieProps/C08Source.lean: BaseChain.__len__ and the index arithmetic / read set of Chain.__getitem__ as translated = Chain.len / Chain.getitem for every Python integer index.',
+ 'C09': 'EpsieProps/C09Source.lean + C09SourceApply.lean: sweep schedule, record and row indices, row count of the views, the row the annealer reads, and the apply block of swap_temperatures (one permutation for positions, stats, blobs, active sets; acceptance untouched; reset condition) as translated = the PTChain model; C09SourceSweep.lean: the translated sweep loop computes the sequential adjacent-exchange specification.',
+ 'C10': 'EpsieProps/C10Source.lean: NestedTransdimensional._jump as translated (request made to choice(): candidates and size; flipped active set; which components are born, killed, moved) = Transdim.jump / candidates / flip / bornSet / killedSet / movedSet.',
  'C11': 'EpsieProps/C11Source.lean: NestedTransdimensional._logpdf as translated (masked loops over the components) = Transdim.logqCode for all points and densities: index density + births iff dk > 0 + in-model densities of the components active on both sides, no term for the choice of components (the binomial factor of the true law is absent, as C11_code_ratio accounts for).',
  'C13': 'EpsieProps/C13Source.lean: the five _update methods as translated (window guards 1<=dk<T resp. 1<dk<T, scalar recursions) = PropSt.inWindow and the Adapt model formulas; direction lemmas proved directly on the translated code.',
  'C15': 'EpsieProps/C15Source.lean: BaseProposal.nsteps/_call_jump/update/jump/logpdf as translated = PropSt.nsteps/callJump/update and the copy / contribute-0 behaviour when not due.',
  'C17': 'EpsieProps/C17Source.lean: the ladder recursion of DynamicalAnnealer.__call__ as translated = Ladder.anneal; every intermediate level object is written with the ladder entry, end points untouched.',
  'C18': 'EpsieProps/C18Source.lean: Chain.step as translated makes exactly one model evaluation and one proposal update, writes each scratch array once at index len, forced reject / accept / reject records = Chain.stepRec.',
- 'C19': 'EpsieProps/C19Source.lean: _reset_adaptation as translated sets start_step = max(nsteps, 1) = PropSt.reset, so a full window follows.',
+ 'C19': 'EpsieProps/C19Source.lean: _reset_adaptation as translated sets start_step = max(nsteps, 1) = PropSt.reset, so a full window follows; EpsieProps/C19SourceApply.lean: the levels reset by the translated apply block of swap_temperatures are exactly those with swap_index[t] != t.',
 }
 import os as _os
 for _pid, _t in SOURCE_TIES.items():
